@@ -26,6 +26,7 @@ type c13In struct {
 	First  string     `json:"first,omitempty"`   // "" ok; transient permanent refused: the very first connection fails
 	StopIn int        `json:"stop_in,omitempty"` // k > 0: Stop is called from inside the k-th PostConnect callback (the one-shot connect / send / stop pattern)
 	Rounds []c13Round `json:"rounds"`
+	KaMs   int        `json:"ka_ms,omitempty"` // keepalive interval in ms (0: the default, 30 s): a short one makes the keepalive of a lost connection tick during the outage
 }
 
 type c13 struct{}
@@ -37,7 +38,7 @@ func (c13) RunFn() string { return "run_C13" }
 func (c13) Workers() int  { return 32 }
 func (c13) Journal() bool { return true }
 func (c13) Rule() string {
-	return "fault sequences of up to 4 rounds on successive connections of a real StreamManager+Client: abrupt drop or graceful </stream:stream> by the server, listener down for 0-120 ms (refused attempts), 0-2 negotiation failures (transient: unexpected reply to <auth/>, with a clean stream close or with the connection cut; permanent: SASL <failure/>), then a successful attempt that resumes (stream management) or binds afresh; a probe stanza is sent on every established session; finally Stop; also first-connection failures; distinct = fault sequence; non-trivial = at least one loss followed by a new session"
+	return "fault sequences of up to 4 rounds on successive connections of a real StreamManager+Client: abrupt drop or graceful </stream:stream> by the server, listener down for 0-120 ms (refused attempts), keepalive interval the default or 3-10 ms (shorter than the outage), 0-2 negotiation failures (transient: unexpected reply to <auth/>, with a clean stream close or with the connection cut; permanent: SASL <failure/>), then a successful attempt that resumes (stream management) or binds afresh; a probe stanza is sent on every established session; finally Stop; also first-connection failures; distinct = fault sequence; non-trivial = at least one loss followed by a new session"
 }
 func (c13) Decode(raw json.RawMessage) (interface{}, error) {
 	var in c13In
@@ -63,9 +64,16 @@ func (c13) Gen(r *rand.Rand, tier string) []interface{} {
 		c13In{First: "transient"}, c13In{First: "permanent"}, c13In{First: "refused"},
 		c13In{StopIn: 1}, c13In{SM: true, StopIn: 1},
 		c13In{StopIn: 2, Rounds: []c13Round{{Term: "drop"}}},
+		// the keepalive interval is shorter than the outage (with the default of 30 s: any outage of a minute)
+		c13In{KaMs: 5, Rounds: []c13Round{{Term: "drop", RefuseMs: 100}}},
+		c13In{KaMs: 5, Rounds: []c13Round{{Term: "close", RefuseMs: 60}, {Term: "drop", Fails: []string{"transient"}}}},
+		c13In{KaMs: 4, SM: true, Rounds: []c13Round{{Term: "drop", RefuseMs: 80, Resume: true}}},
 	)
 	for i := 0; i < n; i++ {
 		in := c13In{SM: r.Intn(2) == 0}
+		if r.Intn(3) == 0 {
+			in.KaMs = 3 + r.Intn(8)
+		}
 		k := 1 + r.Intn(4)
 		for j := 0; j < k; j++ {
 			rd := c13Round{Term: []string{"drop", "close"}[r.Intn(2)]}
@@ -223,6 +231,9 @@ func (c13) Run(inp interface{}) Sx {
 		TransportConfiguration: xmpp.TransportConfiguration{Address: srv.addr(), Domain: srvDomain, ConnectTimeout: 1},
 		Jid:                    "user@" + srvDomain, Credential: xmpp.Password("secret"), Insecure: true,
 		StreamManagementEnable: in.SM, ConnectTimeout: 1,
+	}
+	if in.KaMs > 0 {
+		cfg.KeepaliveInterval = time.Duration(in.KaMs) * time.Millisecond
 	}
 	cfg.VerifSetSMResume(true)
 	var mu sync.Mutex
